@@ -110,8 +110,11 @@ def ill_cases(rng):
     out.append({"cls": "zero-base-return", "fi": True, "how": "adjust-nonflow"})
     for depth in (1, 2):
         out.append({"cls": "fi-child-under-market-value-parent", "depth": depth})
-    out.append({"cls": "custom-price-without-bidoffer", "q": float(rng.randint(1, 9))})
-    out.append({"cls": "custom-price-without-bidoffer", "q": -float(rng.randint(1, 9))})
+    # the custom price: above / below the market, exactly zero (as float, int, numpy scalar), negative; via the security and via ReplayTransactions
+    for px in (101.0, 99.5, 0.0, 0, "np0", -1.0):
+        out.append({"cls": "custom-price-without-bidoffer", "q": float(rng.choice([-1, 1]) * rng.randint(1, 9)), "px": px, "via": "security"})
+    out.append({"cls": "custom-price-without-bidoffer", "q": float(rng.randint(1, 9)), "px": 0.0, "via": "replay"})
+    out.append({"cls": "custom-price-without-bidoffer", "q": float(rng.randint(1, 9)), "px": 105.0, "via": "replay"})
     return out
 
 
@@ -202,7 +205,20 @@ def run_ill(ctx, bt, c):
             s.setup(data)
             s.adjust(1000.0)
             s.update(dates[0])
-            s.children["x"].transact(c["q"], price=101.0)
+            px = c.get("px", 101.0)
+            px = np.float64(0.0) if px == "np0" else px
+            if c.get("via") == "replay":
+                tx = pd.DataFrame({"price": [px], "quantity": [c["q"]]}, index=pd.MultiIndex.from_tuples([(dates[0], "x")], names=["Date", "Security"]))
+                s = core.Strategy("s", children=[core.Security("x")])
+                s.setup(data, txs=tx)
+                s.adjust(1000.0)
+                s.update(dates[0])
+                try:
+                    a.ReplayTransactions("txs")(s)
+                except (TypeError, KeyError, AttributeError):
+                    raise AssertionError("harness: ReplayTransactions call is malformed")
+            else:
+                s.children["x"].transact(c["q"], price=px)
     except Exception as e:  # noqa
         raised = type(e).__name__ + ":" + E.classify_exc(e)
     ctx.count("ill-formed:%s:%s" % (cls, "raised" if raised else "silent"))
